@@ -205,7 +205,7 @@ def parse_printed_list(out, name):
 
 def run_case_file(path):
     d = os.path.dirname(path)
-    rc, out = run(["timeout", "1700", "coqc", "-Q", COQ, "P2", "-Q", d, "Cases", os.path.basename(path)], cwd=d, timeout=1800)
+    rc, out = run(["timeout", "1700", "coqc", "-noglob", "-Q", COQ, "P2", "-Q", d, "Cases", os.path.basename(path)], cwd=d, timeout=1800)
     if rc != 0:
         return path, None, None, out
     return path, parse_printed_list(out, "bad_im"), parse_printed_list(out, "bad_is"), out
